@@ -139,10 +139,18 @@ theorem C01_single_section_merges (orc : Oracle) (k : Nat) (ci : CfgInfo) (o : O
 /-- **unmentioned options keep their declared defaults**: a freshly created context holds, for a
 scalar integer declaration, exactly the declared default, marked pristine. -/
 theorem C01_default_materialised (ci : CfgInfo) (info : OptInfo) (flags : Flags) (subs : List Decl)
-    (hty : info.ty = .int) (hnd : flags.nodefault = false) (hl : flags.list = false) (hdl : info.defList = none) :
+    (hty : info.ty = .int) (hnd : flags.nodefault = false) (hl : flags.list = false) (hdl : info.defList = none)
+    (hs : info.simple = false) :      -- a CFG_SIMPLE option has no default: it holds the caller's variable (C01_simple_holds_variable)
     (mkOpt ci (.mk info flags subs)).vals = [.int info.defInt] ∧ (mkOpt ci (.mk info flags subs)).flags.reset = true ∧
     (mkOpt ci (.mk info flags subs)).flags.modified = false := by
-  simp [mkOpt, hty, hnd, hl, hdl, Opt.vals, Opt.flags]
+  simp [mkOpt, hs, hty, hnd, hl, hdl, Opt.vals, Opt.flags]
+
+/-- a CFG_SIMPLE_INT option starts out holding what the caller's variable holds, with its flags as declared (the
+library installs no default for it and does not mark it pristine) -/
+theorem C01_simple_holds_variable (ci : CfgInfo) (info : OptInfo) (flags : Flags) (subs : List Decl)
+    (hty : info.ty = .int) (hs : info.simple = true) :
+    (mkOpt ci (.mk info flags subs)).vals = [.int info.defInt] ∧ (mkOpt ci (.mk info flags subs)).flags = flags := by
+  simp [mkOpt, hs, hty, Opt.vals, Opt.flags]
 
 /-- the frame on top of a running machine -/
 def topFrame (m : PM) : Option Frame := m.frames.head?
